@@ -683,16 +683,18 @@ class MQTTProtocol(MQTTBaseProtocol):
             if request.alarm is not None:
                 request.alarm.cancel()
                 request.alarm = None
+        # SUBSCRIBE/UNSUBSCRIBE requests are never resumed on a later connection,
+        # so they fail with the connection whatever the session mode
+        for k in list(self.factory.windowSubscribe[self.addr]):
+            request = self.factory.windowSubscribe[self.addr][k]
+            del self.factory.windowSubscribe[self.addr][k]
+            request.deferred.errback(reason)
+        for k in list(self.factory.windowUnsubscribe[self.addr]):
+            request = self.factory.windowUnsubscribe[self.addr][k]
+            del self.factory.windowUnsubscribe[self.addr][k]
+            request.deferred.errback(reason)
         # Then, invoke errbacks anyway if we do not persist state
         if self._cleanStart:
-            for k in list(self.factory.windowSubscribe[self.addr]):
-                request = self.factory.windowSubscribe[self.addr][k]
-                del self.factory.windowSubscribe[self.addr][k]
-                request.deferred.errback(reason)
-            for k in list(self.factory.windowUnsubscribe[self.addr]):
-                request = self.factory.windowUnsubscribe[self.addr][k]
-                del self.factory.windowUnsubscribe[self.addr][k]
-                request.deferred.errback(reason)
             self._purgeSession(reason)
 
 __all__ = [ "MQTTProtocol" ]
